@@ -23,6 +23,8 @@ type val struct {
 	b bool
 	s string
 	l []int64
+	// 'L': a list of strings — only ever a haystack leaf of the long-haystack family (longin.go)
+	ls []string
 }
 
 func (v val) String() string {
@@ -42,6 +44,8 @@ func (v val) String() string {
 			fmt.Fprintf(&sb, "%d,", x)
 		}
 		return sb.String()
+	case 'L':
+		return strings.Join(v.ls, ",") + ","
 	}
 	return "?"
 }
@@ -287,7 +291,7 @@ func buildPools(w world, pre string) map[byte][]leaf {
 			lf("lit", sv("/b$/"), "'/b$/'"),
 		},
 	}
-	p['x'] = extraLeaves()
+	p['x'] = extraLeaves(pre)
 	if !w.base {
 		return p // in the other worlds the values follow from the structure of the leaves
 	}
@@ -699,7 +703,7 @@ func binop(op string, l, r val) (val, error) {
 	}
 	switch op {
 	case "==", "!=":
-		if l.t == 'l' || r.t == 'l' {
+		if l.t == 'l' || r.t == 'l' || l.t == 'L' || r.t == 'L' {
 			return bad()
 		}
 		if l.t != r.t {
@@ -729,14 +733,23 @@ func binop(op string, l, r val) (val, error) {
 		}
 		return bv(a >= b), nil
 	case "in", "not in":
-		if l.t != 'i' || r.t != 'l' {
-			return bad()
-		}
+		// membership: an integer among integers, a string among strings (equal as strings); every mixture is left open
 		found := false
-		for _, x := range r.l {
-			if x == l.i {
-				found = true
+		switch {
+		case l.t == 'i' && r.t == 'l':
+			for _, x := range r.l {
+				if x == l.i {
+					found = true
+				}
 			}
+		case l.t == 's' && r.t == 'L':
+			for _, x := range r.ls {
+				if x == l.s {
+					found = true
+				}
+			}
+		default:
+			return bad()
 		}
 		return bv(found == (op == "in")), nil
 	case "starts with":
